@@ -12,6 +12,7 @@ pub mod mutate;
 pub mod net;
 pub mod node;
 pub mod nonce;
+pub mod rsign;
 
 pub use exec::{Exec, Sched, Stop};
 pub use kv::MemKv;
